@@ -384,8 +384,87 @@ def part_roundtrip(ctx):
                 'device_A_raw': [ctx.shard, ctx.shard, ctx.shard, 0]})
 
 
+DELAYS = {'sec': [-5, -0.5, -0.0005, 0, 0.0004, 0.0005, 0.001, 0.25, 1, 2.5,
+                  60, 86400, 4294967.295, 4294968, 1e7],
+          'raw': [-2000, -1, -0.4, 0, 0.4, 1, 250, 999, 1500, 86400000,
+                  2 ** 32 - 1, 2 ** 32, 1e12]}
+LIMIT = (2 ** 32 - 1) / 1000.0
+
+
+def part_delays(ctx):
+    """the delay requested from the clock before a command: `time` seconds in
+    logical and rgb units, milliseconds in raw units, never negative --
+    literals, expressions and values carried through a unit switch"""
+    n = 3000 if ctx.tier == 'thorough' else 300
+    for i in range(ctx.shard, n, ctx.nshards):
+        rng = ctx.rng('delays', i)
+        parts, want = [], []
+        mode = 'logical'
+        for j in range(rng.randint(1, 4)):
+            new = rng.choice(['logical', 'raw', 'rgb'])
+            t = rng.choice(DELAYS['raw' if new == 'raw' else 'sec'])
+            form = rng.choice(['plain', 'plain', 'braces', 'sum', 'negated'])
+            if form == 'negated' and t < 0:
+                arg = '{ 0 - ' + lit(-t) + ' }'
+            elif form == 'braces':
+                arg = '{ ' + lit(t) + ' }'
+            elif form == 'sum':
+                arg = '{ ' + lit(t) + ' + 0 }'
+            else:
+                arg = lit(t)
+            if want and rng.random() < 0.25:
+                # not stated again: the delay in force is carried through the
+                # unit switch (the same span of time)
+                parts.append('units {} {} print {}'.format(
+                    new, rng.choice(COMMANDS), j))
+                want.append(want[-1])
+                ctx.count('delays_carried')
+            else:
+                parts.append('units {} time {} {} print {}'.format(
+                    new, arg, rng.choice(COMMANDS), j))
+                want.append(t / 1000.0 if new == 'raw' else t)
+            mode = new
+        text = ' '.join(parts) + ' time 0'
+        r = run_script(text)
+        replay = {'part': 'delays', 'script': text}
+        ctx.case('T:' + text)
+        if not r.accepted or r.stops:
+            ctx.violation('delays:rejected-or-aborted', '{} {} | {}'.format(
+                r.errors, r.stops[:1], text[:300]), replay)
+            continue
+        seg, got = 0, []
+        for e in r.log:
+            if e[0] == 'clock' and e[1] == 'pause_for':
+                got.append(e[2][0])
+            elif e[0] == 'out' and e[1] == 'out' and seg < len(want) and \
+                    e[2] == seg:
+                w = want[seg]
+                bad = None
+                if any(not isinstance(g, (int, float)) or g < 0 for g in got):
+                    bad = 'negative'
+                elif w <= 0:
+                    if any(g != 0 for g in got):
+                        bad = 'delay-for-no-time'
+                elif w <= LIMIT:
+                    if len(got) != 1 or abs(got[0] - w) > 1e-9 * max(1, w):
+                        bad = 'wrong-delay'
+                elif len(got) != 1 or not LIMIT * (1 - 1e-9) <= got[0] <= \
+                        w * (1 + 1e-9):
+                    bad = 'beyond-range'
+                if bad:
+                    ctx.violation(
+                        'delays:' + bad,
+                        'segment {}: the clock was asked for {} where the '
+                        'script says {} s | {}'.format(seg, got[:3], w,
+                                                       text[:300]), replay)
+                    break
+                ctx.count('delays_checked')
+                seg, got = seg + 1, []
+
+
 def run_shard(ctx):
     env.configure(simnet.make_devices(DEVICES))
+    part_delays(ctx)
     part_roundtrip(ctx)
     part_mixed(ctx)
     part_grid(ctx)
@@ -397,7 +476,7 @@ def finalize(merged):
         merged['inconclusive'].append('exhaustive sweep incomplete: {}'.format(
             c.get('roundtrip_logical')))
     for m in ('grid_logical', 'grid_raw', 'grid_rgb', 'values_checked',
-              'mixed_segments'):
+              'mixed_segments', 'delays_checked'):
         if not c.get(m):
             merged['inconclusive'].append('no ' + m)
     merged['coverage_extra'] = {
